@@ -13,6 +13,38 @@ ENDS = (('l', '<'), ('b', '>'), ('n', '<'))
 ALLOC_FACTOR = 64
 
 
+def _holds_vector(t):
+    """fixed struct whose C++ class has a std::vector member (limited array / limited bytes), directly or nested"""
+    if isinstance(t, W.Struct):
+        return any((isinstance(f.ty, (W.Array, W.Bytes)) and f.ty.mode == W.LIMITED) or _holds_vector(f.ty)
+                   for f in t.fields if not f.sizer_of)
+    if isinstance(t, W.Array):
+        return _holds_vector(t.elem)
+    if isinstance(t, W.Union):
+        return any(_holds_vector(a.ty) for a in t.arms)
+    return False
+
+
+def known_shape(t):
+    """tag of a schema shape with a recorded finding (so that it is reported as that finding and nothing else is
+    masked): an optional whose value is a fixed struct holding a std::vector while its wire alignment is <= 4 --
+    the header pads the optional by the C++ object alignment (8), not by the wire alignment"""
+    if isinstance(t, W.Struct):
+        for f in t.fields:
+            if f.sizer_of:
+                continue
+            if isinstance(f.ty, W.Optional) and _holds_vector(f.ty.base) and W.A(f.ty.base) <= 4:
+                return 'opt-vector-holder'
+            inner = f.ty.elem if isinstance(f.ty, W.Array) else f.ty.base if isinstance(f.ty, W.Optional) else f.ty
+            if isinstance(inner, (W.Struct, W.Union)) and known_shape(inner):
+                return known_shape(inner)
+    if isinstance(t, W.Union):
+        for a in t.arms:
+            if known_shape(a.ty):
+                return known_shape(a.ty)
+    return None
+
+
 def _values(t, rng, n, text_domain=False):
     out = []
     tries = 0
@@ -113,16 +145,22 @@ def _run_unit(prop, unit, texts, rng, fail, nvals, pymod):
                 for code, e in ENDS[:2]:
                     meta.append(('over', t, v, len(reqs), code))
                     reqs.append((t.name, code, 'over', W.enc(t, v, e)))
+            if prop == 'C05' and isinstance(t, W.Struct) and cxx.overwrap_code(t):
+                meta.append(('wrap', t, v, len(reqs), 'l'))
+                reqs.append((t.name, 'l', 'wrap', W.enc(t, v, '<')))
             if prop == 'C07':
                 for code, e in ENDS[:2]:
                     for b in _corruptions(W.enc(t, v, e), rng):
                         meta.append(('bad', t, v, len(reqs), code, b))
                         reqs.append((t.name, code, 'rt', b))
     res = cxx.run_requests(unit, reqs)
+    fail0 = fail
     for m in meta:
         cases += 1
         kind, t, v, base = m[:4]
         txt = texts[t.name]
+        tag = known_shape(t)
+        fail = (lambda key, *a, _tag=tag: fail0('%s:%s' % (_tag, key), *a)) if tag else fail0
         if kind == 'rt':
             pystr = None
             if prop == 'C18' and pymod is not None:
@@ -145,6 +183,15 @@ def _run_unit(prop, unit, texts, rng, fail, nvals, pymod):
                 if not (r['size'] == r['written'] == len(r['vec'])):
                     fail('over-size', txt, v, 'limited arrays filled beyond their limit: get_byte_size %d, pointer encode '
                          'wrote %d, vector %d' % (r['size'], r['written'], len(r['vec'])))
+        elif kind == 'wrap':
+            r = res[base]
+            if 'crash' in r:
+                fail('wrap-crash', txt, v, 'array with 300 elements counted by an 8-bit sizer: %s' % r['crash'][:600])
+            elif 'exc' in r:
+                fail('wrap-exception', txt, v, r['exc'])
+            elif r.get('ok') and not (r['size'] == r['written'] == len(r['vec'])):
+                fail('wrap-size', txt, v, 'array with 300 elements counted by an 8-bit sizer: get_byte_size %d, pointer encode '
+                     'wrote %d, vector %d' % (r['size'], r['written'], len(r['vec'])))
         else:
             r, code, b = res[base], m[4], m[5]
             if 'crash' in r:
